@@ -51,3 +51,21 @@ def run(ctx):
                       "requests %s with records %s h3=%s: %s" % (json.dumps(c["reqs"]), json.dumps(c["recs"]), c["h3"], x["diff"]), x)
     ctx.sample(cases[0])
     ctx.sample(cases[-1])
+    if not ctx.replay:
+        ipv6_origins(ctx)
+
+
+def ipv6_origins(ctx):
+    """IPv6-literal origins: distinct literals are distinct origins (no shared pooled connection)."""
+    f = ctx.path("ipv6.ndjson")
+    rc, out = ctx.go_test("^TestTransportIPv6Origins$", env={"VH_OUT": f}, timeout=600)
+    res = vlib.read_ndjson(f)
+    summ = [x for x in res if x.get("summary")]
+    if not summ:
+        raise vlib.Inconclusive("IPv6-origin driver did not finish:\n" + out[-1500:])
+    if summ[0].get("env"):
+        raise vlib.Inconclusive("environment failure in the IPv6-origin driver")
+    ctx.evaluations += summ[0]["cases"]
+    for x in res:
+        if not x.get("summary"):
+            ctx.violation("ipv6:" + vlib.fp(x["diff"][:60]), "Transport with IPv6-literal origins: " + x["diff"], x)
